@@ -126,7 +126,22 @@ class Scenario:
         self.ops.append({"op": "hdereg" if dereg else "hreg", "via": via, "a": a, "weight": weight, "res": r.get("res")})
         if r.get("res") != "ok":
             raise ToolError("HTTP-style %s through node %d failed: %s" % ("deregister" if dereg else "register", via, r))
-        self.ev(ev="hdereg" if dereg else "hreg", a=a)
+        self.ev(ev="hdereg" if dereg else "hreg", a=a, w=int(round(weight)))
+
+    def hbeat(self, via, a):
+        """a heart-beat of an HTTP instance sent to node `via` (PUT /instance/beat, the real handler): routed to the node
+        responsible for the service; it changes nothing a query shows"""
+        ip, port = HADDRS[a]
+        r = self.c.nodes[via].call({"op": "ns_http_beat", "service": SVC + "-" + a, "ip": ip, "port": port})
+        self.ops.append({"op": "hbeat", "via": via, "a": a, "res": r.get("res")})
+        if r.get("res") != "ok":
+            raise ToolError("HTTP heart-beat through node %d failed: %s" % (via, r))
+        self.ev(ev="hbeat", a=a)
+
+    def hread(self):
+        """what every live node returns for the HTTP instances, right now (no settling: heart-beats are not changes)"""
+        for n, (_view, hview) in self.views().items():
+            self.ev(ev="hread", n=n, hview=hview)
 
     def hupd(self, via, a, at):
         """an HTTP update (weight / enabled) of an address a gRPC connection holds, sent to node `via`: it is applied by the
@@ -184,8 +199,9 @@ class Scenario:
                         at = "unhealthy:" + at
                     view.append({"a": names.get("%s:%s" % (i["ip"], i["port"]), "?"), "c": ids.get(i["client"], "?" + str(i["client"])), "at": at})
                 elif i["service"].startswith(SVC + "-"):
-                    hview.append(hnames.get("%s:%s" % (i["ip"], i["port"]), "?"))
-            out[n] = (sorted(view, key=lambda x: x["a"]), sorted(hview))
+                    hview.append({"a": hnames.get("%s:%s" % (i["ip"], i["port"]), "?"),
+                                  "w": int(round(i["weight"])) if i["enabled"] and i["healthy"] and abs(i["weight"] - round(i["weight"])) < 1e-6 else -1})
+            out[n] = (sorted(view, key=lambda x: x["a"]), sorted(hview, key=lambda x: x["a"]))
         return out
 
     def settle_and_read(self, rounds=3):
@@ -242,6 +258,22 @@ class Scenario:
                 self.hupd(3, "a2", "w4")
                 self.hupd(1, "a3", "w3")
                 self.settle_and_read(rounds=2)
+            elif self.kind == "beat_via_non_owner":
+                # HTTP instances with a weight of their own keep heart-beating through every node in turn (so at least two
+                # of three beats of an instance reach a node that is not responsible for its service and are routed):
+                # heart-beats are not changes - whichever node is asked in between returns the registered weight
+                self.hreg(1, "h1", weight=3.0)
+                self.hreg(2, "h2", weight=2.0)
+                self.hreg(3, "h3", weight=3.0)
+                time.sleep(3.0)
+                self.hread()
+                for rnd_ in range(2):
+                    for via in (1, 2, 3):
+                        for h in ("h1", "h2", "h3"):
+                            self.hbeat(via, h)
+                        time.sleep(0.7)
+                        self.hread()
+                self.settle_and_read(rounds=1)
             elif self.kind == "node_death":
                 self.open_clients([1, 2, 2, 3])
                 self.reg("c1", "a1")
@@ -359,7 +391,7 @@ def run(tier):
     c.add_negative_control("Distro where a sync update leaves the key in the old client's index violates Converges (the "
                            "anti-entropy round keeps deleting and re-fetching a live instance)", n["violated"])
 
-    kinds = ["takeover", "update_then_deregister", "http_update_of_grpc_instance", "node_death"] + ["random"] * (5 if quick else 30)
+    kinds = ["takeover", "update_then_deregister", "http_update_of_grpc_instance", "beat_via_non_owner", "node_death"] + ["random"] * (5 if quick else 30)
     jobs = [(os.path.join(sc_dir, "s%d" % i), c.seed * 1000 + i, k) for i, k in enumerate(kinds)]
 
     def one(j):
